@@ -246,7 +246,10 @@ class RefReader:
         # A host that was not ON when this step began and is ON now finished booting in this step's tick: requests were
         # refused while it booted, so nothing has been executed, accessed, created or deleted on it in this step and its
         # per-step counters encode 0 whatever the simulator's attributes still hold (independent event count = 0).
-        self.fresh = bool(on and self.prev_on.get(name) is False)
+        # Only certain with a start-up duration > 0: then ON is reached from BOOTING in a tick, never inside the action
+        # phase. With duration 0 `node-startup` switches the node ON at once, and an agent declared after the one that
+        # issued it legitimately executes / accesses things on it in the same step (false alarm corrected, see NOTES).
+        self.fresh = bool(on and self.prev_on.get(name) is False and node.config.start_up_duration > 0)
         if self.fresh:
             self.masked.add("boot-completed-this-step")
         if node is not None and not on and self.prev_on.get(name) is True:
